@@ -30,6 +30,15 @@ NUL bytes, very long runs; rules that are very deep, very long, or repeat the sa
 later uses of one evaluator; two evaluators for texts that differ only slightly. The defect should stay invisible for
 plain JSON-like inputs and short rules.
 """,
+    "state": """
+Extra request for this round: prefer defects that live in STATE rather than in a single computation - a cache (per
+evaluator, per process, keyed by something slightly too coarse), a pool of reused objects with an incomplete reset, a
+lazily built table, memoised results, a buffer or slice reused between calls or shared between values, a package-level
+variable, a sync.Once capturing the first caller's data, an error value that is reused and mutated. The wrong behaviour
+should need a particular HISTORY (an earlier call, rule, object or goroutine) and be invisible when every evaluation
+starts from a fresh process or a fresh evaluator - but it must still violate the property as stated. If the property is
+purely about one computation, make the state trigger WHICH inputs are computed wrongly.
+""",
 }
 
 TEMPLATE = """# Seeding a defect that the existing tests do not catch
